@@ -57,13 +57,14 @@ func runC08(cfg *Config) *Report {
 	r := newRand(cfg.Seed)
 	pg := &progGen{r: r, allowNon: true, rels: []int{1, 2, 3, 4, 5, 7, 8, 10}}
 	for i := 0; i < cfg.N; i++ {
-		kind := r.Intn(10)
+		kind := r.Intn(13)
 		nv := 1 + r.Intn(7)
 		s := genSubst(r, nv)
 		q := uint64(r.Intn(nv))
 		v := genTerm(r, 1+r.Intn(4), nv)
 		prog := pg.goal(2+r.Intn(7), 1)
 		n := r.Intn(5) - 1
+		gcase := genGRun(r)
 		if cfg.Only >= 0 && cfg.Only != i {
 			cf.add("CReifyS TNil []")
 			rep.CaseDesc = append(rep.CaseDesc, "")
@@ -105,6 +106,10 @@ func runC08(cfg *Config) *Report {
 			if strings.Count(showTerm(v), "?") >= 2 {
 				rep.nontrivial(desc)
 			}
+		case kind >= 10:
+			desc, obs = gcase.desc, runGRun(gcase, rep, i)
+			rep.hist("gomini-run")
+			rep.nontrivial(desc)
 		default:
 			// Run(n, g) end to end; only programs whose first n answers are reachable within a step budget are used
 			env := queryEnv(1)
@@ -137,6 +142,9 @@ func runC08(cfg *Config) *Report {
 			if len(outs) > 0 {
 				rep.nontrivial(desc)
 			}
+		}
+		if kind >= 10 {
+			cf.add("CReifyS TNil []") // the gomini part has direct oracles only; keep indices aligned
 		}
 		rep.CaseDesc = append(rep.CaseDesc, desc)
 		rep.CaseObs = append(rep.CaseObs, obs)
